@@ -117,7 +117,7 @@ def run(ctx):
                        'takes the generated DEFAULT_ROUNDING_MODE and the sign of the formatted number. The padding limit FMT_MAX_INTEGER_PADDING '
                        'feeds a comparison on those paths. FLAGS (sufficient condition for "flags never alter the digits"): no value obtained from '
                        'Formatter::{width,fill,align,sign_plus,sign_minus,sign_aware_zero_pad,flags,alternate} flows into the bytes written or into '
-                       'pad_integral. UNITS (contradiction rule): on the formatting paths every byte container is used consistently as ASCII text or as digit values (a `== 0` / is_zero test on bytes that are elsewhere offset by b\'0\' is a contradiction). FIXED-POINT: in the {:.N} formatter for numbers with integer digits the edits of the digit vector (rounding at len - (scale - target), zero padding, point at len - scale) leave the digit content at exactly the target scale on every path (linear identity, using round_ascii_digits\' contract). ASCII-ROUND: round_ascii_digits rounds D[n-1] from the insignificant digit D[n] and the tail D[n+1..] (all offset by b\'0\'), truncates to n-1 digits, pushes the rounded digit back and reports len(D)-n removed digits. NUMERAL-SHAPE: in the {:.Ne} formatter the exponent written accounts for the digits removed by rounding and for the padding zeros (linear identity over all digit counts). BOUNDED-FILL: where the padding limit is consulted, the amount compared with it is exactly the amount the buffer grows by. NOT decided: that the ASCII-digit rounding agrees numerically with the library\'s rounding routines.')
+                       'pad_integral. UNITS (contradiction rule): on the formatting paths every byte container is used consistently as ASCII text or as digit values (a `== 0` / is_zero test on bytes that are elsewhere offset by b\'0\' is a contradiction). FIXED-POINT: in the {:.N} formatter for numbers with integer digits the edits of the digit vector (rounding at len - (scale - target), zero padding, point at len - scale) leave the digit content at exactly the target scale on every path (linear identity, using round_ascii_digits\' contract). For pure fractions (format_ascii_digits_no_integer): the regime is chosen by comparing target with scale - len, n = target - (scale - len) digits are kept, the output is target + 2 bytes, the digits are moved so that the last one sits at fractional position scale - delta, byte 1 is the point, and left of the digits the single rounded digit is the last byte with the right insignificant digit. ASCII-ROUND: round_ascii_digits rounds D[n-1] from the insignificant digit D[n] and the tail D[n+1..] (all offset by b\'0\'), truncates to n-1 digits, pushes the rounded digit back and reports len(D)-n removed digits. NUMERAL-SHAPE: in the {:.Ne} formatter the exponent written accounts for the digits removed by rounding and for the padding zeros (linear identity over all digit counts). BOUNDED-FILL: where the padding limit is consulted, the amount compared with it is exactly the amount the buffer grows by. NOT decided: that the ASCII-digit rounding agrees numerically with the library\'s rounding routines.')
     F = ctx.facts('default', 'rel')
     if not hasattr(F, '_prov'):
         F._prov = prov.ProvEngine(F)
@@ -136,6 +136,8 @@ def run(ctx):
     from rules import fixedpoint
     nfp = fixedpoint.check(rep, F)
     rep.floor('fixed-point bookkeeping cells', nfp, 4)
+    nfn = fixedpoint.check_no_integer(rep, F)
+    rep.floor('pure-fraction layout cells', nfn, 11)
     from rules import asciiround
     nar = asciiround.check(rep, F)
     rep.floor('positions of the ASCII rounding routine', nar, 6)
